@@ -289,6 +289,9 @@ class TestRunner(RunnerInterface):
             logging.error(
                 f"Test result {uid} for {name} could not be found and extracted, defaulting to ERROR"
             )
+            # the test is no longer running so record a definite local status instead of the pending one
+            node_result["status"] = "ERROR"
+            test_status = "error"
         node.prefix = original_prefix
 
         logging.info(f"Finished running test with status {test_status.upper()}")
